@@ -272,7 +272,9 @@ class Session:
             self.contracts_used[k] = self.contracts_used.get(k, 0) + v
 
     # -- running obligations ------------------------------------------------------
-    def explore(self, name, desc, body, bounds=None, max_paths=5000000):
+    _in_worker = False
+
+    def explore(self, name, desc, body, bounds=None, max_paths=5000000, parallel=False):
         """run body over all paths; returns (obligation record, explorer)"""
         ob = Obligation(name, desc)
         ob.bounds = bounds or {}
@@ -282,7 +284,17 @@ class Session:
                               deadline=time.time() + max(remaining, 5))
         t = time.time()
         try:
-            ex.run(body)
+            def merge(x):
+                for k, v in x[0].items():
+                    self.fns_used[k] = v
+                for k, v in x[1].items():
+                    self.contracts_used[k] = max(self.contracts_used.get(k, 0), v)
+            ex.child_extra = lambda: (self.fns_used, self.contracts_used)
+            ex.merge_extra = merge
+            W = 0
+            if parallel and not self._in_worker:
+                W = int(os.environ.get('VERIF_WORKERS', '0') or 0) or min(12, os.cpu_count() or 1)
+            ex.run(body, parallel=W)
             ob.status = 'held' if not ex.violations else 'counterexample'
         except explore.Inconclusive as e:
             ob.status = 'inconclusive: %s' % e
@@ -324,6 +336,7 @@ class Session:
                 code = 0
                 try:
                     self._driver = None             # the driver pipe belongs to the parent
+                    self._in_worker = True
                     res = []
                     for idx in range(w, len(tasks), workers):
                         name, desc, body, bounds = tasks[idx]
